@@ -325,7 +325,8 @@ theorem bfix_break_celSafe (owner : String) (params action : KV) (old new : List
   exact (dispatch_layout _ owner params action old new ho' h).2.1 ho
 
 /-- **remove_carriage_return_after_token** (if_035, loop_statement_005, selected_assignment_001/003/011;
-    the tree after the repair 7d29fc3: line breaks are removed only up to the first comment).  In
+    the tree after the repair 7d29fc3: line breaks are removed only up to the first comment, and — since the
+    preprocessor repair, see `bfix_removeCrAfter_preprocSafe` — up to a line break in front of a preprocessor line).  In
     every context every comment stays at its line end, provided the region starts neither with a
     line break nor with a `--` comment (it starts with the keyword the rule is about; each hypothesis
     is violated by one witness of `removeCrAfter_celSafe_false`) -/
@@ -349,6 +350,58 @@ theorem removeCrAfter_celSafe_false :
   have := hs [⟨4, .comment, "-- c".toList⟩] [] (by decide)
   revert this
   decide
+
+/-- **remove_carriage_return_after_token and preprocessor lines** (the tree after the repair "keeps a
+    preprocessor line on a line of its own"; before it `with sel select ⏎ #ifdef X ⏎ q <= …` became
+    `with sel select #ifdef X    q <= …`).  In every context in which every preprocessor line stands alone
+    on its line (`preprocOwnLine`: a preprocessor token is admitted only on a fresh line and nothing but
+    whitespace follows it up to the next line break) it still does after the fix — provided the region
+    starts with a solid token (the keyword the rule is about) and the text BEHIND the region does not begin
+    with a preprocessor line (the fix cannot see it; both hypotheses are violated by one witness of
+    `removeCrAfter_preprocSafe_false`) -/
+theorem bfix_removeCrAfter_preprocSafe (owner : String) (params action : KV) (old new : List Tok)
+    (ho : owner ∈ removeCrAfterOwners) (h : Base.fixByOwner owner params action old = some (.ok new))
+    (hhead : headSolid old = true) (pre post : List Tok) (hpost : nextIsPreproc post = false)
+    (hok : preprocOwnLine (pre ++ old ++ post) = true) : preprocOwnLine (pre ++ new ++ post) = true := by
+  have ho' : owner ∈ breakOwners ++ removeCrOwners :=
+    List.mem_append_right _ (List.mem_append_left _ ho)
+  rw [fixByOwner_lineStruct owner params action old (layoutOwners_sub_all ho')] at h
+  exact dispatch_removeCrAfter_preproc _ owner params action old new ho h hhead pre post hpost hok
+
+/-- the region of the former finding `remove_carriage_return_after_token / preprocessorAbsorbsCode`,
+    `select ⏎ #ifdef X ⏎ ␣`: the repaired fix keeps it as it is (it used to return `select #ifdef X ␣`),
+    and an own-line blank in front of the preprocessor line loses only its own line break -/
+theorem removeCrAfter_preproc_region_kept :
+    (let a : Tok := ⟨9, .code, "select".toList⟩
+     let p : Tok := ⟨7, .preproc, "#ifdef X".toList⟩
+     let n : Tok := ⟨2, .cr, ['\n']⟩
+     let w : Tok := ⟨1, .ws, [' ']⟩
+     let b : Tok := ⟨3, .blank, []⟩
+     fixRemoveCrAfter Base.lineCls false [a, n, p, n, w] = .ok [a, n, p, n, w] ∧
+     fixRemoveCrAfter Base.lineCls false [a, n, w, p, n] = .ok [a, n, w, p, n] ∧
+     fixRemoveCrAfter Base.lineCls false [a, n, b, n, p] = .ok [a, b, n, p]) := by
+  decide
+
+/-- without the two hypotheses the statement is false: a region whose last line break stands in front of
+    a preprocessor line OUTSIDE the region loses it (`a ⏎` followed by `#ifdef X`); a region that starts with
+    whitespace behind a preprocessor line joins the next line onto it -/
+theorem removeCrAfter_preprocSafe_false :
+    (∃ old new post, fixRemoveCrAfter Base.lineCls false old = .ok new ∧ headSolid old = true ∧
+      preprocOwnLine (old ++ post) = true ∧ preprocOwnLine (new ++ post) = false) ∧
+    (∃ pre old new, fixRemoveCrAfter Base.lineCls false old = .ok new ∧
+      preprocOwnLine (pre ++ old) = true ∧ preprocOwnLine (pre ++ new) = false) := by
+  refine ⟨⟨[⟨9, .code, ['a']⟩, ⟨2, .cr, ['\n']⟩], _, [⟨7, .preproc, "#ifdef X".toList⟩], rfl, by decide, by decide, by decide⟩,
+    ⟨[⟨7, .preproc, "#ifdef X".toList⟩], [⟨1, .ws, [' ']⟩, ⟨2, .cr, ['\n']⟩, ⟨9, .code, ['a']⟩], _, rfl, by decide, by decide⟩⟩
+
+/-- non-vacuity of `bfix_removeCrAfter_preprocSafe`: the region of the former finding followed by code -/
+example :
+    let a : Tok := ⟨9, .code, "select".toList⟩
+    let p : Tok := ⟨7, .preproc, "#ifdef X".toList⟩
+    let n : Tok := ⟨2, .cr, ['\n']⟩
+    let w : Tok := ⟨1, .ws, [' ']⟩
+    let old := [a, n, p, n, w]
+    headSolid old = true ∧ nextIsPreproc [a] = false ∧ preprocOwnLine ([n] ++ old ++ [a]) = true := by
+  intro a p n w old; exact ⟨by decide, by decide, by decide⟩
 
 /-- **remove_carriage_returns_between_token_pairs** (a base class no rule of the tree uses) still
     removes EVERY line break of its region, as remove_carriage_return_after_token did before the
